@@ -225,6 +225,8 @@ impl FixtureDatabase {
 
         #[cfg(pytest_language_server_verif)]
         super::verif_hooks::event("scan_phase2_done", root_path);
+        #[cfg(pytest_language_server_verif)]
+        super::verif_hooks::phase_gate("phase2_done");
 
         // Phase 3: Scan virtual environment for pytest plugins first
         // (must happen before import scanning so venv plugin files are in file_cache)
